@@ -32,6 +32,12 @@ func genRecovery(r *rng, index int) *Spec {
 	case "diverged":
 		sp.Timeline = append(sp.Timeline, TLEvent{AtMs: T0 - int64(r.intn(300)), Kind: "errant_txn", Host: M, N: 1})
 		sp.Timeline = append(sp.Timeline, TLEvent{AtMs: T0, Kind: "kill_mysql", Host: M, Fault: true, DurMs: int64(r.pickInt(8000, 20000))})
+		if r.chance(0.6) {
+			// it comes back with a slow applier: at the recovery checks it holds its own extra
+			// transaction and still lacks what the new master has committed since (diverged both ways)
+			sp.Timeline = append(sp.Timeline, TLEvent{AtMs: T0 + 100, Kind: "apply_delay", Host: M, N: int64(r.pickInt(15000, 40000))})
+			sp.World.ClientWriteMs = int64(r.pickInt(300, 700))
+		}
 		how = "failover"
 	case "dead_during":
 		sp.Timeline = append(sp.Timeline, TLEvent{AtMs: T0, Kind: "cli_switch_from", Host: ha[1], Arg: M})
